@@ -1,5 +1,6 @@
 //! C08, conversions: every FromPrimitive entry point and every FloatConst constant of every
 //! concrete type against the scalar type's own conversion / constant (table from Forms.tla).
+use crate::absval::*;
 use crate::calc::*;
 use crate::registry::*;
 use serde_json::{json, Value};
@@ -50,6 +51,31 @@ impl<'a> TypeFn for FormsFn<'a> {
                     out.viol.push(json!({"key": T::KEY, "entry": name, "arg": a, "why": why,
                                          "got": got.as_ref().map(|g| g.to_json())}));
                 }
+            }
+        }
+        // from_inner: the inner number becomes the real part, every derivative part is zero / absent
+        {
+            let mut tmpl = T::zero().to_json()["re"].clone();
+            let mut k = 0.0f64;
+            fn fill(v: &mut Value, k: &mut f64) {
+                match v {
+                    Value::Array(a) if a.len() == 2 && a[0].is_number() => { *k += 1.0; *v = f64_to_json((*k * 3.0 - 7.0) / 2.0); }
+                    Value::Array(a) => a.iter_mut().for_each(|x| fill(x, k)),
+                    Value::Object(o) => o.iter_mut().for_each(|(_, x)| fill(x, k)),
+                    _ => {}
+                }
+            }
+            fill(&mut tmpl, &mut k);
+            let got = T::from_inner_json(&tmpl)?;
+            out.checks += 1;
+            out.entry_points += 1;
+            let gj = got.to_json();
+            let mut flat = vec![];
+            got.flat(&mut flat);
+            let n_inner = k as usize;
+            let rest_zero = flat.iter().skip(n_inner).all(|x| *x == 0.0);
+            if compare(&gj["re"], &tmpl) != Cmp::Same || !rest_zero || flat.len() < n_inner {
+                out.viol.push(json!({"key": T::KEY, "entry": "from_inner", "why": "from_inner(x) is not the constant x", "inner": tmpl, "got": gj}));
             }
         }
         for c in self.table["float_const"].as_array().ok_or("float_const")? {
